@@ -1025,6 +1025,10 @@ type Inst struct {
 	// Typed(a, nil, b, ...) option with nil values in between (nil values
 	// must simply be ignored).
 	GroupTyped bool
+	// StaleUpper supplies, BEFORE everything else, one more value for every
+	// named input under the same name spelled in upper case (id -6): the
+	// later, real value overrides it, so it must not show up anywhere.
+	StaleUpper bool
 }
 
 var errDupType = errors.New("two generated functions share a Go type")
@@ -1198,6 +1202,15 @@ func (in *Inst) AllArgs(call int, r *rand.Rand) []am.Arg {
 	args := append(in.InputArgs(call), in.ConvArgs...)
 	if r != nil {
 		r.Shuffle(len(args), func(i, j int) { args[i], args[j] = args[j], args[i] })
+	}
+	if in.StaleUpper {
+		var stale []am.Arg
+		for _, l := range in.S.Inputs {
+			if l.Name != "" {
+				stale = append(stale, am.NamedSubtype(strings.ToUpper(l.Name), mk(l.Type, -6).Interface(), l.Sub))
+			}
+		}
+		args = append(stale, args...)
 	}
 	return args
 }
